@@ -79,13 +79,17 @@ Theorem unrepaired_evaluate_writes_shared_cell :
 Proof. exact C12b.unrepaired_evaluate_writes_shared_cell. Qed.
 Print Assumptions unrepaired_evaluate_writes_shared_cell.
 
-Theorem field_writes_pinned :
-  go_field_writes = [("bexpr.go", "compileRegexps", "node.Value.Converted"); ("evaluate.go", "evaluateNotPresent", "ptr.Parts")].
-Proof. exact TieWrites.field_writes_pinned. Qed.
-Print Assumptions field_writes_pinned.
+Theorem evaluation_path_writes_nothing_shared :
+  evaluation_path_shared_writes = [].
+Proof. exact TieWrites.evaluation_path_writes_nothing_shared. Qed.
+Print Assumptions evaluation_path_writes_nothing_shared.
 
-Theorem evaluation_path_writes_only_the_per_call_pointer :
-  evaluation_path_writes = [("evaluate.go", "evaluateNotPresent", "ptr.Parts")].
-Proof. exact TieWrites.evaluation_path_writes_only_the_per_call_pointer. Qed.
-Print Assumptions evaluation_path_writes_only_the_per_call_pointer.
+Theorem evaluation_path_is_populated :
+  forallb (fun f => existsb (String.eqb f) go_eval_reachable) ["Evaluate"; "Execute"; "evaluate"] = true.
+Proof. exact TieWrites.evaluation_path_is_populated. Qed.
+Print Assumptions evaluation_path_is_populated.
 
+Theorem no_mutable_package_state :
+  forallb (fun v => match v with (_, _, c) => String.eqb c "fixed" end) go_package_vars = true.
+Proof. exact TieWrites.no_mutable_package_state. Qed.
+Print Assumptions no_mutable_package_state.
